@@ -154,6 +154,8 @@ def run(ctx):
     variants.append((c, 'mime', dict(c['inst']), {'server_lr': float(island.frac(c['inst']['mime_slr']))}, 'mime'))
     if mi % 2 == 0:     # with an L2 regulariser: it enters the full-batch step exactly once
       lam_m = rng.choice([0.25, 0.5])
+      if not island.within_island(dict(c['inst'], reg=R(lam_m))):
+        continue      # (the oracle also computes the regularised FedAvg rounds of the instance: keep TLC's integers in range)
       variants.append((c, 'mime', dict(c['inst'], reg=R(lam_m)), {'server_lr': float(island.frac(c['inst']['mime_slr'])), 'reg': lam_m}, 'mime'))
   # a fixed instance with a round without any example under a stateful server optimizer (see known_findings.json)
   fx = {'data': [[], [[2]]], 'init': [R(-2)], 'copt': island.opt_spec('sgd', 1), 'sopt': island.opt_spec('mom', 0.5, 0.5), 'mu': R(0), 'rounds': 3,
